@@ -224,6 +224,11 @@ pub const EXTRA_DOCS: &[&str] = &[
     "<r><k1>v</k1><k2>w</k2></r>",
     "text",
     "<r a=\"\"><v>x</v></r>",
+    // documents that begin with characters whose UTF-8 form shares one or two bytes with the
+    // byte-order mark EF BB BF (but are not one)
+    "\u{ff21}\u{ff22}c",
+    "\u{fec1}x",
+    "\u{ff21}<a>1</a>",
 ];
 
 /// attribute snippets injected into start tags
@@ -657,7 +662,7 @@ pub const VOCAB: &[&str] = &[
     "<a xsi:nil=\"true\">", "<opt xsi:nil=\"true\" xmlns:xsi=\"http://www.w3.org/2001/XMLSchema-instance\">", "<a xsi:nil=\"false\"/>", "<a nil=\"true\">", "<inner xsi:nil=\"1\" a=\"\">", "<item xsi:nil='true'/>", "<root xsi:nil=\"true\">",
     "<a k=\"1\" k=\"2\">", "<a k=1>", "<a k>", "<a k=\"1>", "<a =1>", "<a a=\"1\" a=\"2\"/>", "<a k=\"&unknown;\">", "<a k=\"&lt;\" j='&#65;'>", "<inner a=\"1\" a=\"2\">", "<a xmlns=\"u\">", "<p:a xmlns:p=\"u\">", "</p:a>",
     "</>", "<>", "</zzz>", "<", ">", "/>", "<a", "</a", "<!", "<!-", "<![", "<![CDATA[", "]]>", "-->", "?>", "\u{feff}",
-    "<x:nil>", "</x:nil>", "<xsi:nil/>", "<a xsi:nil>", "<item p:nil/>", "<a xsi:nil=>", "<nil>", "\r", "x\r", "<a k=\"\r\">", "<a k='v\r'>", "<inner a=\"x\r\n\">",
+    "\u{ff21}", "\u{fec1}", "<x:nil>", "</x:nil>", "<xsi:nil/>", "<a xsi:nil>", "<item p:nil/>", "<a xsi:nil=>", "<nil>", "\r", "x\r", "<a k=\"\r\">", "<a k='v\r'>", "<inner a=\"x\r\n\">",
 ];
 
 pub fn tokens_of(doc: &str) -> Vec<String> {
